@@ -3,6 +3,7 @@ package main
 import (
 	"fmt"
 	"math/big"
+	"strconv"
 	"strings"
 )
 
@@ -149,6 +150,11 @@ func mkEq(a, b Term) Term {
 	if a.S == b.S {
 		return tTrue
 	}
+	if x, _, ok := litVal(a); ok {
+		if y, _, ok := litVal(b); ok && x != y {
+			return tFalse
+		}
+	}
 	return app("=", SBool, a, b)
 }
 
@@ -168,6 +174,18 @@ func mkIte(c, a, b Term) Term {
 func mkSelect(arr, idx Term, elem Sort) Term { return app("select", elem, arr, idx) }
 func mkStore(arr, idx, v Term) Term          { return app("store", arr.Sort, arr, idx, v) }
 
+// litVal returns the value of a hexadecimal bit-vector literal of at most 64 bits.
+func litVal(a Term) (uint64, int, bool) {
+	if !strings.HasPrefix(a.S, "#x") || len(a.S) > 18 {
+		return 0, 0, false
+	}
+	v, err := strconv.ParseUint(a.S[2:], 16, 64)
+	if err != nil {
+		return 0, 0, false
+	}
+	return v, (len(a.S) - 2) * 4, true
+}
+
 func bvAdd(a, b Term) Term {
 	if isZeroLit(b) {
 		return a
@@ -175,11 +193,26 @@ func bvAdd(a, b Term) Term {
 	if isZeroLit(a) {
 		return b
 	}
+	if x, w, ok := litVal(a); ok {
+		if y, _, ok := litVal(b); ok {
+			return bvLit(w, x+y)
+		}
+	}
 	return app("bvadd", a.Sort, a, b)
 }
 func bvSub(a, b Term) Term {
 	if isZeroLit(b) {
 		return a
+	}
+	if x, w, ok := litVal(a); ok {
+		if y, _, ok := litVal(b); ok {
+			return bvLit(w, x-y)
+		}
+	}
+	if a.S == b.S {
+		if w, ok := a.Sort.isBV(); ok && w%4 == 0 {
+			return bvLit(w, 0)
+		}
 	}
 	return app("bvsub", a.Sort, a, b)
 }
@@ -189,6 +222,11 @@ func bvMul(a, b Term) Term {
 	}
 	if isOneLit(a) {
 		return b
+	}
+	if x, w, ok := litVal(a); ok {
+		if y, _, ok := litVal(b); ok {
+			return bvLit(w, x*y)
+		}
 	}
 	return app("bvmul", a.Sort, a, b)
 }
@@ -200,7 +238,38 @@ func isOneLit(a Term) bool {
 	return strings.HasPrefix(a.S, "#x") && strings.TrimLeft(a.S[2:], "0") == "1"
 }
 
-func bvCmp(op string, a, b Term) Term { return app(op, SBool, a, b) }
+func bvCmp(op string, a, b Term) Term {
+	if x, w, ok := litVal(a); ok && w == 64 {
+		if y, _, ok := litVal(b); ok {
+			var r bool
+			switch op {
+			case "bvsle":
+				r = int64(x) <= int64(y)
+			case "bvslt":
+				r = int64(x) < int64(y)
+			case "bvule":
+				r = x <= y
+			case "bvult":
+				r = x < y
+			case "bvsge":
+				r = int64(x) >= int64(y)
+			case "bvsgt":
+				r = int64(x) > int64(y)
+			case "bvuge":
+				r = x >= y
+			case "bvugt":
+				r = x > y
+			default:
+				return app(op, SBool, a, b)
+			}
+			if r {
+				return tTrue
+			}
+			return tFalse
+		}
+	}
+	return app(op, SBool, a, b)
+}
 
 func sle(a, b Term) Term { return bvCmp("bvsle", a, b) }
 func slt(a, b Term) Term { return bvCmp("bvslt", a, b) }
